@@ -130,7 +130,7 @@ def _value_pred(g, is_x):
             r = strip_refs(t[2][0])
             if r[0] == "call" and r[1] and r[1].endswith("RangeInclusive::new") and all(x[0] == "c" and isinstance(x[1], int) for x in r[2][:2]):
                 return lambda v, lo=r[2][0][1], hi=r[2][1][1]: (lo <= v <= hi) == truth
-            if r[0] == "agg" and r[2] and r[2].endswith("ops::Range") and len(r[3]) == 2 and all(x[0] == "c" and isinstance(x[1], int) for x in r[3]):
+            if r[0] == "agg" and r[2] and r[2].endswith(("ops::Range", "ops::Range::Range")) and len(r[3]) == 2 and all(x[0] == "c" and isinstance(x[1], int) for x in r[3]):
                 return lambda v, lo=r[3][0][1], hi=r[3][1][1]: (lo <= v < hi) == truth
         return None
     if g.kind == "value" and is_x(strip_refs(g.term)) and isinstance(g.value, int):
